@@ -177,6 +177,7 @@ func (zns *ZnPMServer) StartMaster(connUrl string, cfg ZnPMServerConfig) error {
 
 // // fork child processes
 func (zns *ZnPMServer) spawnProcess(cfg ZnPMServerConfig, l *net.TCPListener, p *pipe) error {
+	verifPoint("spawn-enter", zns, 0)
 	// prepare net.Conn file to transfer to child processes
 	lf, err := l.File()
 	if err != nil {
@@ -207,6 +208,7 @@ func (zns *ZnPMServer) spawnProcess(cfg ZnPMServerConfig, l *net.TCPListener, p 
 	pid := cmd.Process.Pid
 
 	// register new child process to workerState
+	verifPoint("add-send", zns, pid)
 	zns.addChan <- workerState{
 		pid:   pid,
 		state: WORKER_STATE_IDLE,
@@ -216,6 +218,7 @@ func (zns *ZnPMServer) spawnProcess(cfg ZnPMServerConfig, l *net.TCPListener, p 
 	go func() {
 		cmd.Wait()
 		// after cmd is done, send pid to del channel
+		verifPoint("del-send", zns, pid)
 		zns.delChan <- pid
 	}()
 
@@ -243,6 +246,7 @@ func (zns *ZnPMServer) readNamedPipe(pipe *pipe) {
 		pid = int(binary.BigEndian.Uint32(buf))
 		state = buf[4]
 
+		verifPoint("update-send", zns, pid<<8|int(state))
 		zns.updateChan <- workerState{
 			pid:   pid,
 			state: state,
@@ -288,6 +292,7 @@ func (zns *ZnPMServer) maintainChildState(cfg ZnPMServerConfig, ln *net.TCPListe
 
 				addNum := finalProcNum - currentNum
 				zns.refCount = finalProcNum
+				verifPoint("batch-start", zns, addNum)
 				go func() {
 					for i := 0; i < addNum; i++ {
 						if err := zns.spawnProcess(cfg, ln, p); err != nil {
@@ -304,6 +309,7 @@ func (zns *ZnPMServer) maintainChildState(cfg ZnPMServerConfig, ln *net.TCPListe
 			if zns.refCount < cfg.InitProcs {
 				numsToSpawn := cfg.InitProcs - zns.refCount
 				zns.refCount += numsToSpawn
+				verifPoint("respawn-start", zns, numsToSpawn)
 				// spawn more processes to ensure minimum proc number
 				go func() {
 					for i := 0; i < numsToSpawn; i++ {
@@ -317,6 +323,7 @@ func (zns *ZnPMServer) maintainChildState(cfg ZnPMServerConfig, ln *net.TCPListe
 				}()
 			}
 		}
+		verifPoint("loop-done", zns, 0)
 	}
 }
 
